@@ -202,6 +202,13 @@ fn case(t: &mut Tape, rec: &mut Rec<'_>) {
         base.push_str(&txt);
         base.push('\n');
     }
+    // longer entity type paths (three and four segments): every `::` is a token that can carry comments
+    match t.upto(4) {
+        0 => base = base.replace("NS::C", "NS::Mid::C"),
+        1 => base = base.replace("NS::C", "NS::Mid::Deep::C"),
+        _ => {}
+    }
+    rec.label_if(base.contains("NS::Mid::"), "long-type-path");
     let toks: Vec<Tok> = tokenize(&base).into_iter().filter(|t| with_comments || !matches!(t, Tok::Comment(_))).collect();
     let (input, _injected) = inject(t, &toks, if with_comments { (1, 10) } else { (0, 1) });
     let in_comments = comments_of(&input);
@@ -292,6 +299,6 @@ pub fn property() -> Property {
                formatting succeeds; the output parses to pairwise equal policies (ids, annotations in order, effect, scope, conditions); the sequence of comment bodies is unchanged; re-formatting the output again preserves policies and comments and, for comment-free input, is the identity. \
                Non-trivial = >=2 comments or a line longer than 80 columns.",
         assumptions: &["harness tokenizer (comment extraction) and text emitter", "structural equality of parsed policies (bridge::templates_equal)"],
-        subs: vec![SubCheck { name: "format", cases: (60_000, 600_000), tape_len: 3000, run: case, min_labels: &[("comment-free", 12_000), ("with-comments", 25_000), ("comments>=2", 15_000)] }],
+        subs: vec![SubCheck { name: "format", cases: (60_000, 600_000), tape_len: 3000, run: case, min_labels: &[("comment-free", 12_000), ("with-comments", 25_000), ("comments>=2", 15_000), ("long-type-path", 8000)] }],
     }
 }
